@@ -28,6 +28,7 @@ import (
 func init() { engines["peerbook"] = enginePeerbook }
 
 const pbPoint = "peer.addConnection.afterCheck"
+const pbAddPoint = "peerlist.Add.afterRootAdd"
 
 type pbClock struct {
 	mu  sync.Mutex
@@ -55,6 +56,7 @@ type pbSide struct {
 	parked    int // round currently parked at (0 = not parked)
 	parkCh    chan struct{}
 	parkPeer  map[int]*tchannel.Peer // root peer of the round's host:port when the goroutine parked
+	returned  bool                   // dial side: Channel.Connect returned this connection
 	link      *pbLink
 }
 
@@ -113,6 +115,10 @@ type pbScenario struct {
 	desc    []string
 	timeout time.Duration
 	o       *Out
+	// PeerList.Add parked between RootPeerList.Add and addSC
+	parkAdd    bool
+	addArrived chan struct{}
+	addRelease chan struct{}
 }
 
 var pbFailures int
@@ -124,7 +130,11 @@ func enginePeerbook(rng *rand.Rand, n int, tier string, o *Out) {
 		if tier != "quick" {
 			nops = 5 + rng.Intn(14)
 		}
-		sc.run(nops)
+		if k%12 == 7 {
+			sc.runParkedAdd()
+		} else {
+			sc.run(nops)
+		}
 		sc.finish(fmt.Sprintf("s%d", k))
 	}
 	tchannel.VerifSetHook(nil)
@@ -252,6 +262,17 @@ func (sc *pbScenario) register(pc *pbChan, c *tchannel.Connection, accepted bool
 }
 
 func (sc *pbScenario) hook(name string, id uint32) {
+	if name == pbAddPoint {
+		sc.mu.Lock()
+		park, arrived, release := sc.parkAdd, sc.addArrived, sc.addRelease
+		sc.parkAdd = false
+		sc.mu.Unlock()
+		if park {
+			close(arrived)
+			<-release
+		}
+		return
+	}
 	if name != pbPoint {
 		return
 	}
@@ -443,8 +464,8 @@ func (sc *pbScenario) judge(pc *pbChan, v *pbView) (string, bool) {
 		}
 		for r, hp := range s.hps {
 			round := r + 1
-			if s.arrivals < round || s.parked == round {
-				continue // this round of the activation has not appended yet
+			if !s.returned && (s.arrivals < round || s.parked == round) {
+				continue // this round of the activation has not appended yet (Connect has not returned)
 			}
 			pv, ok := v.peers[hp]
 			n := 0
@@ -540,7 +561,11 @@ func (sc *pbScenario) judge(pc *pbChan, v *pbView) (string, bool) {
 			if p, ok := l.Copy()[hp]; ok {
 				refs++
 				if p != root {
-					return fmt.Sprintf("peer list %d holds a Peer object for %s that is not the one in the root list", lid, hp), false
+					msg := fmt.Sprintf("peer list %d holds a Peer object for %s that is not the one in the root list", lid, hp)
+					if pc.tainted[hp] {
+						return known(hp, msg), true
+					}
+					return msg, false
 				}
 			}
 		}
@@ -560,7 +585,11 @@ func (sc *pbScenario) judge(pc *pbChan, v *pbView) (string, bool) {
 	for lid, l := range pc.lists {
 		for hp, p := range l.Copy() {
 			if root, ok := pc.ch.RootPeers().Get(hp); !ok || root != p {
-				return fmt.Sprintf("peer list %d references %s but the root list does not hold that peer", lid, hp), false
+				msg := fmt.Sprintf("peer list %d references %s but the root list does not hold that peer", lid, hp)
+				if pc.tainted[hp] {
+					return known(hp, msg+": the peer was removed from the root list between RootPeerList.Add and addSC of PeerList.Add"), true
+				}
+				return msg, false
 			}
 		}
 	}
@@ -932,12 +961,14 @@ func (sc *pbScenario) afterConnect(from *pbChan, r *pbConnRes) {
 		return
 	}
 	sc.mu.Lock()
-	if _, ok := sc.sides[tchannel.VerifConnInfoOf(r.c).ID]; !ok {
+	s, ok := sc.sides[tchannel.VerifConnInfoOf(r.c).ID]
+	if !ok {
 		// never reached the schedule point: refused by Channel.addConnection or already closing
 		_, inMap := tchannel.VerifChannelConn(from.ch, tchannel.VerifConnInfoOf(r.c).ID)
-		sc.register(from, r.c, inMap)
+		s = sc.register(from, r.c, inMap)
 		sc.o.Hist("connect-refused-or-closing")
 	}
+	s.returned = true // every round of the activation is over
 	sc.mu.Unlock()
 }
 
@@ -1084,6 +1115,70 @@ func (sc *pbScenario) run(nops int) {
 		}
 		sc.settle()
 	}
+}
+
+// runParkedAdd forces the window inside PeerList.Add: the peer returned by RootPeerList.Add
+// loses its only connection (and is collected) before addSC takes the reference.  While the
+// Add is parked it holds the list's write lock, so the channel cannot be introspected: no
+// snapshot is taken until the release.  If the implementation has no such schedule point the
+// schedule is infeasible (not a failure).
+func (sc *pbScenario) runParkedAdd() {
+	a, b := sc.chans[0], sc.chans[1]
+	sc.opConnect(a, b, false, 0, false, false, nil)
+	sc.settle()
+	if len(a.sides) == 0 || tchannel.VerifConnState(a.sides[0].conn) != 1 {
+		return
+	}
+	lid := sc.rng.Intn(len(a.lists))
+	hp := b.hp
+	sc.mu.Lock()
+	sc.parkAdd, sc.addArrived, sc.addRelease = true, make(chan struct{}), make(chan struct{})
+	arrived, release := sc.addArrived, sc.addRelease
+	a.script = append(a.script, 9, int64(lid), 2, int64(lid), sc.name(hp))
+	sc.mu.Unlock()
+	sc.say("PeerList.Add(%s) on list %d of channel %d, parked between RootPeerList.Add and addSC", hp, lid, a.idx)
+	sc.o.Hist("op=listadd-parked")
+	done := make(chan struct{})
+	go func() { a.lists[lid].Add(hp); close(done) }()
+	select {
+	case <-arrived:
+	case <-time.After(time.Second):
+		sc.mu.Lock()
+		sc.parkAdd = false
+		a.script = append(a.script, 10, int64(lid))
+		sc.mu.Unlock()
+		<-done
+		sc.o.Hist("parked-add-infeasible")
+		sc.settle()
+		return
+	}
+	was, _ := a.ch.RootPeers().Get(hp)
+	// the only connection to hp closes (its callbacks block later, on the list lock, after the collection)
+	side := a.sides[0]
+	if sc.rng.Intn(2) == 0 && side.link != nil && side.link.acc != nil {
+		side = side.link.acc
+	}
+	sc.say("graceful close of connection #%d on channel %d while the Add is parked", side.ord, side.pc.idx)
+	go sc.closeSide(side)
+	collected := false
+	for dl := time.Now().Add(2 * time.Second); time.Now().Before(dl); time.Sleep(300 * time.Microsecond) {
+		if _, ok := a.ch.RootPeers().Get(hp); !ok {
+			collected = true
+			break
+		}
+	}
+	sc.mu.Lock()
+	sc.recordChangesOf(a)
+	// the close callbacks ran (removal and collection observed above) before the release
+	a.script = append(a.script, 11, 10, int64(lid))
+	sc.mu.Unlock()
+	sc.say("release the parked Add (peer collected meanwhile: %v)", collected)
+	close(release)
+	<-done
+	if cur, _ := a.ch.RootPeers().Get(hp); collected && cur != was {
+		a.tainted[hp] = true
+	}
+	sc.settle()
 }
 
 func (sc *pbScenario) finish(id string) {
